@@ -45,6 +45,20 @@ P_CorrCols(img, ker, c, opt, pad, dstBefore) ==
 P_ConvRows(img, ker, c, opt, pad, d0) == P_CorrRows(img, RevSeq(ker), Len(ker) - 1 - c, opt, pad, d0)
 P_ConvCols(img, ker, c, opt, pad, d0) == P_CorrCols(img, RevSeq(ker), Len(ker) - 1 - c, opt, pad, d0)
 
+\* box_filter (image_processing/filter.hpp) = detail::convolve_1d with K taps of weight 1: convolve_rows into the destination,
+\* then convolve_cols of the destination into itself (so under output_ignore the second pass keeps what the first one wrote)
+Ones(K) == [k \in 1..K |-> 1]
+P_BoxFilter(img, K, c, opt, pad, d0) ==
+    LET r1 == P_ConvRows(img, Ones(K), c, opt, pad, d0) IN P_ConvCols(r1, Ones(K), c, opt, pad, r1)
+\* what a user expects of it: the sum over the K x K window that reaches c to the right / below and K-1-c to the left / above
+P_BoxWindowSum(img, K, c, opt) ==
+    [yy \in 1..H(img) |-> [xx \in 1..W(img) |->
+        LET x == xx - 1 y == yy - 1 lo == 0 - (K - 1 - c)
+            inside == x + lo >= 0 /\ x + c <= W(img) - 1 /\ y + lo >= 0 /\ y + c <= H(img) - 1
+        IN IF opt = "output_zero" /\ ~inside THEN 0
+           ELSE SumSeq([i \in 1..(K * K) |-> Sample(img, x + lo + ((i - 1) % K), y + lo + ((i - 1) \div K),
+                                                     IF opt = "output_zero" THEN "extend_zero" ELSE opt, [big |-> <<>>, ox |-> 0, oy |-> 0])])]]
+
 \* zero-extended 2-D convolution with a K x K kernel (rows of the kernel: ker2[j+1][i+1] = K(i,j)), centre (cx, cy)
 P_Conv2D(img, ker2, cx, cy) ==
     LET K == Len(ker2) IN
